@@ -30,6 +30,7 @@
 #include <string.h>
 #include <stdint.h>
 #include <sys/mman.h>
+#include <unistd.h>
 #include <intel-ipsec-mb.h>
 #include "include/ipsec_ooo_mgr.h"
 #include "include/ooo_mgr_reset.h"
@@ -104,7 +105,9 @@ struct cmp {
         const char *region;      /* "IMB_MGR" or the OOO field */
         int used;                /* region belongs to the scheduling state of the new variant */
         uint8_t *covered;        /* per byte of the block */
-        long diff_used, diff_unused;
+        const char *stype;       /* struct type of the region */
+        int lenient;             /* comparison after a follow-up history: scratch areas may differ */
+        long diff_used, diff_unused, diff_scratch;
         int printed;
         FILE *out;
 };
@@ -125,9 +128,30 @@ norm_ptr(uint64_t v, const uint8_t *base, size_t size, const karena *ar)
         return v;
 }
 
+/*
+ * Areas the kernels use as scratch and fill from registers holding whatever the caller left there
+ * (observed: address fragments).  They are written before they are read; their content after a
+ * history is not a function of the history.  Compared strictly right after init, reported
+ * separately after a follow-up history.
+ */
+static int
+is_scratch(const char *stype, const char *leaf)
+{
+        return stype != NULL && !strcmp(stype, "MB_MGR_SNOW3G_OOO") && !strncmp(leaf, "ks[", 3);
+}
+
 static void
 cmp_report(struct cmp *c, const char *name, uint32_t off, uint64_t va, uint64_t vb, unsigned nbytes)
 {
+        if (c->lenient && is_scratch(c->stype, name)) {
+                c->diff_scratch += nbytes;
+                if (c->printed < 40) {
+                        fprintf(c->out, "IMGDIFF region=%s leaf=%s off=%u a=%llx b=%llx scratch=1\n", c->region, name,
+                                off, (unsigned long long) va, (unsigned long long) vb);
+                        c->printed++;
+                }
+                return;
+        }
         if (c->used)
                 c->diff_used += nbytes;
         else
@@ -195,6 +219,8 @@ img_compare(IMB_MGR *ma, IMB_MGR *mb, FILE *out, long *unused, const char *label
         c.ra = c.a;
         c.rb = c.b;
         c.region = "IMB_MGR";
+        c.stype = "IMB_MGR";
+        c.lenient = (ara != NULL);
         c.used = 1;
         cmp_struct(&c, gl_find("IMB_MGR"));
         for (int i = 0; i < GR_NTABLE; i++) {
@@ -206,11 +232,13 @@ img_compare(IMB_MGR *ma, IMB_MGR *mb, FILE *out, long *unused, const char *label
                 c.ra = pa;
                 c.rb = pb;
                 c.region = gr_table[i].field;
+                c.stype = gr_table[i].stype;
                 c.used = k_variant_uses(v, gr_table[i].field);
                 cmp_struct(&c, gl_find(gr_table[i].stype));
         }
         /* everything not covered by a leaf: padding inside structs, alignment gaps, slack */
         c.region = "padding";
+        c.stype = NULL;
         c.used = 1;
         for (size_t i = 0; i < c.size; i++)
                 if (!c.covered[i] && c.a[i] != c.b[i]) {
@@ -220,8 +248,8 @@ img_compare(IMB_MGR *ma, IMB_MGR *mb, FILE *out, long *unused, const char *label
                         c.ra = c.a;
                         cmp_report(&c, name, (uint32_t) i, c.a[i], c.b[i], 1);
                 }
-        fprintf(out, "IMGCMP %s bytes=%zu diff_used=%ld diff_unused=%ld variant=%s\n", label, c.size,
-                c.diff_used, c.diff_unused, v ? v->name : "?");
+        fprintf(out, "IMGCMP %s bytes=%zu diff_used=%ld diff_unused=%ld diff_scratch=%ld variant=%s\n", label, c.size,
+                c.diff_used, c.diff_unused, c.diff_scratch, v ? v->name : "?");
         free(c.covered);
         *unused = c.diff_unused;
         return c.diff_used;
@@ -511,6 +539,7 @@ int
 main(int argc, char **argv)
 {
         setvbuf(stdout, NULL, _IOFBF, 1 << 20);
+        alarm(60); /* a hang inside the library ends the run (SIGALRM) instead of leaving a spinning process behind */
         if (argc >= 2 && !strcmp(argv[1], "resetimg"))
                 return mode_resetimg();
         if (argc >= 2 && !strcmp(argv[1], "run"))
